@@ -445,6 +445,16 @@ func c13CapNeeded(res *fw.Result, T1, uncapped *big.Int) {
 	}
 }
 
+// c13LimbCross counts the steps on which a 256-bit quantity crosses a multiple of 2^64
+// (a carry between the limbs of Work).
+func c13LimbCross(res *fw.Result, what string, before, after *big.Int) {
+	for _, k := range []uint{64, 128, 192} {
+		if new(big.Int).Rsh(before, k).Cmp(new(big.Int).Rsh(after, k)) != 0 {
+			res.Count(fmt.Sprintf("limb-carry:%s:2^%d", what, k))
+		}
+	}
+}
+
 func c13FloorDiv(a *big.Int, num, den int64) *big.Int {
 	x := new(big.Int).Mul(a, big.NewInt(num))
 	return x.Div(x, big.NewInt(den))
@@ -472,6 +482,16 @@ func c13CheckStep(c *fw.Ctx, st c13Step, isGenesis bool) (string, consensus.Stat
 		}
 		return "panic", next, false
 	}
+	c13Oracle(c, st, next, isGenesis, era)
+	return "ok " + c13StateTokens(next), next, true
+}
+
+// c13Oracle is the statement-level oracle for one applied header (st.s --st.bh--> next):
+// never zero, the clamp of the era, cumulative work monotone / strictly increasing / EXACT
+// against math/big under v2 rules (and within rounding of the harmonic target arithmetic
+// before), the decayed work sum exact, the floored-inverse relation.
+func c13Oracle(c *fw.Ctx, st c13Step, next consensus.State, isGenesis bool, era string) {
+	res := c.Res
 	viol := func(key, what, exp, obs string) {
 		res.Violate(fw.Violation{Key: key, What: what, Replay: st.replay(), Expected: exp, Observed: obs})
 	}
@@ -546,10 +566,34 @@ func c13CheckStep(c *fw.Ctx, st c13Step, isGenesis bool) (string, consensus.Stat
 		// --- cumulative work
 		tw, tw1 := c13BigW(st.s.TotalWork), c13BigW(next.TotalWork)
 		if tw1.Cmp(tw) < 0 {
-			viol("c13-totalwork-decreased", "cumulative work decreased", "≥ "+tw.String(), tw1.String())
+			viol("c13-totalwork-decreases", "cumulative work decreased", "≥ "+tw.String(), tw1.String())
 		}
 		if ch >= n.HardforkV2.AllowHeight && tw1.Cmp(tw) <= 0 {
-			viol("c13-totalwork-decreased", "cumulative work did not strictly increase under v2 rules", "> "+tw.String(), tw1.String())
+			viol("c13-totalwork-decreases", "cumulative work did not strictly increase under v2 rules", "> "+tw.String(), tw1.String())
+		}
+		if ch >= n.HardforkV2.AllowHeight {
+			// exact: TotalWork' = TotalWork + work(block) = TotalWork + Difficulty
+			if want := new(big.Int).Add(tw, D); tw1.Cmp(want) != 0 {
+				viol("c13-totalwork-inexact", "cumulative work is not the previous cumulative work plus the block's difficulty", want.String(), tw1.String())
+			}
+			// the decayed sum: OakWork' = OakWork - floor(OakWork/200) + Difficulty
+			ow := c13BigW(st.s.OakWork)
+			want := new(big.Int).Add(new(big.Int).Sub(ow, new(big.Int).Div(ow, big.NewInt(200))), D)
+			if ow1 := c13BigW(next.OakWork); ow1.Cmp(want) != 0 {
+				viol("c13-oakwork-inexact", "decayed work sum is not OakWork - OakWork/200 + Difficulty", want.String(), ow1.String())
+			}
+			c13LimbCross(res, "totalwork", tw, tw1)
+			c13LimbCross(res, "oakwork", ow, want)
+		} else if T.Sign() != 0 {
+			// legacy eras keep 1/work: TotalWork' = floor(maxT / Depth'), Depth' = floor(Depth·T/(Depth+T));
+			// exact up to the rounding of those floors: |TotalWork' - (TotalWork + floor(maxT/T))| ≤ 4·(TotalWork'^2/maxT + 1)
+			want := new(big.Int).Add(tw, new(big.Int).Div(c13MaxT, T))
+			tol := new(big.Int).Div(new(big.Int).Mul(tw1, tw1), c13MaxT)
+			tol.Add(tol, big.NewInt(1)).Mul(tol, big.NewInt(4))
+			if diff := new(big.Int).Abs(new(big.Int).Sub(tw1, want)); diff.Cmp(tol) > 0 {
+				viol("c13-totalwork-inexact", "legacy cumulative work differs from previous + block work by more than the rounding of the target arithmetic", want.String()+" ± "+tol.String(), tw1.String())
+			}
+			c13LimbCross(res, "totalwork-legacy", tw, tw1)
 		}
 		// --- inverse relation, in the direction of the era that produced the pair
 		if ch < n.HardforkV2.AllowHeight {
@@ -566,7 +610,6 @@ func c13CheckStep(c *fw.Ctx, st c13Step, isGenesis bool) (string, consensus.Stat
 			}
 		}
 	}
-	return "ok " + c13StateTokens(next), next, true
 }
 
 // ---------------------------------------------------------------- (a) header chains
@@ -708,6 +751,9 @@ func c13ValidateCases(c *fw.Ctx, chn c13Chain, count int, ops, outs *[]string) {
 		s := chn.states[idx]
 		var prev []int64
 		nts := consensus.VerifNumTimestamps(s)
+		if nts == 0 {
+			continue // a chain that broke on its genesis header leaves only the genesis state
+		}
 		for i := 0; i < nts; i++ {
 			prev = append(prev, s.PrevTimestamps[i].Unix())
 		}
@@ -1315,6 +1361,11 @@ func runC13(c *fw.Ctx) {
 			c.Res.Rule = rule + " PLUS (C13B): " + c.Res.Rule
 		}
 	}()
+	c13bGuard(c, "C13 main families", func() { runC13Main(c) })
+}
+
+func runC13Main(c *fw.Ctx) {
+	res := c.Res
 	var ops, outs []string
 	r := c.Rng
 	nChains := c.Budget(36, 600)
